@@ -74,7 +74,7 @@ def run(ctx):
     kinds = spatial if ctx.tier == 'thorough' else [k for k in spatial if vdim(k) <= 8]
     roots, meta = build_roots(kinds)
     if ctx.elem == 'i32':   # integer twin pass: the ring-only functions (the others need T: Real)
-        roots = [r for r in roots if meta[r.name]['kind'] in ('dot', 'distance_squared', 'magnitude_squared', 'cross', 'reflected', 'homog', 'ishom', 'face_forward') and 'u32' not in r.name]
+        roots = [r for r in roots if meta[r.name]['kind'] in ('dot', 'distance_squared', 'magnitude_squared', 'cross', 'reflected', 'homog', 'face_forward') and 'u32' not in r.name]
     sc = ctx.scan(roots, feats)
     if sc.compile_error: return
     done = 0
@@ -245,7 +245,7 @@ def run(ctx):
                 from .c12 import vslerp
                 vslerp(ctx, key, rs, w, True, 'Vec3')
             elif k == 'homog':
-                vec_eq(ctx, key, rs.only().ret, [x / A[3] for x in A], 'alg=: homogenised = v / w (so w becomes 1)', w)
+                vec_eq(ctx, key, rs.only().ret, [(fn('idiv', x, A[3]) if ctx.elem == 'i32' else x / A[3]) for x in A], 'alg=: homogenised = v / w, each element divided by w (so w becomes 1; integers: truncating division, not a multiplication by 1/w)', w)
             elif k == 'isw':
                 p = rs.only()
                 ctx.ob(key, truth(p.ret) == approx_rel(A[3], C(m['x']), eps, eps), 'deleg: w compared with %d by relative_eq with the default tolerances' % m['x'], w, 'relative_eq(w, %d, eps, eps)' % m['x'], str(p.ret))
